@@ -148,6 +148,7 @@ func (e *Engine) Begin(ctx context.Context, lock bool) (*Transaction, error) {
 	ctx = ensureContext(ctx)
 
 	// check for transaction
+	verifPoint("begin.locked", e)
 	sess, ok := ctx.Value(sessionKey{}).(*Session)
 	if ok {
 		txn := sess.Transaction()
@@ -159,7 +160,13 @@ func (e *Engine) Begin(ctx context.Context, lock bool) (*Transaction, error) {
 	// acquire token (without lock); use a tomb-aware context so that a shutdown
 	// unblocks the acquisition
 	e.mutex.Unlock()
+	verifPoint("begin.unlocked", e)
 	ok = e.token.Acquire(e.tomb.Context(ctx).Done(), time.Minute)
+	if ok {
+		verifPoint("begin.acquired", e)
+	} else {
+		verifPoint("begin.acquire_failed", e)
+	}
 	e.mutex.Lock()
 	if !ok {
 		if !e.tomb.Alive() {
@@ -173,18 +180,21 @@ func (e *Engine) Begin(ctx context.Context, lock bool) (*Transaction, error) {
 
 	// engine may have closed while we waited
 	if !e.tomb.Alive() {
+		verifPoint("token.release", e)
 		e.token.Release()
 		return nil, ErrEngineClosed
 	}
 
 	// assert transaction
 	if e.txn != nil {
+		verifPoint("token.release", e)
 		e.token.Release()
 		return nil, fmt.Errorf("existing transaction")
 	}
 
 	// create transaction
 	e.txn = NewTransaction(e.catalog)
+	verifPoint("begin.txn_set", e)
 
 	return e.txn, nil
 }
@@ -196,6 +206,7 @@ func (e *Engine) Commit(txn *Transaction) error {
 	// acquire lock
 	e.mutex.Lock()
 	defer e.mutex.Unlock()
+	verifPoint("commit.locked", e)
 
 	// check if closed
 	if !e.tomb.Alive() {
@@ -212,6 +223,7 @@ func (e *Engine) Commit(txn *Transaction) error {
 
 	// ensure token is released
 	defer e.token.Release()
+	defer verifPoint("token.release", e)
 
 	// unset transaction
 	e.txn = nil
@@ -225,15 +237,18 @@ func (e *Engine) Commit(txn *Transaction) error {
 	txn.Clean(e.opts.MinOplogSize, e.opts.MaxOplogSize, e.opts.MinOplogAge, e.opts.MaxOplogAge)
 
 	// write catalog
+	verifPoint("commit.before_store", e)
 	err := e.store.Store(txn.Catalog())
 	if err != nil {
 		return err
 	}
 
 	// set new catalog
+	verifPoint("commit.before_publish", e)
 	e.catalog = txn.Catalog()
 
 	// broadcast change
+	verifPoint("commit.before_broadcast", e)
 	for stream := range e.streams {
 		select {
 		case stream.signal <- struct{}{}:
@@ -251,6 +266,7 @@ func (e *Engine) Abort(txn *Transaction) {
 	// acquire lock
 	e.mutex.Lock()
 	defer e.mutex.Unlock()
+	verifPoint("abort.locked", e)
 
 	// check if closed
 	if !e.tomb.Alive() {
@@ -266,6 +282,7 @@ func (e *Engine) Abort(txn *Transaction) {
 	e.txn = nil
 
 	// release token
+	verifPoint("token.release", e)
 	e.token.Release()
 }
 
@@ -391,6 +408,7 @@ func (e *Engine) Close() {
 	// calls can re-acquire the mutex and observe the dead tomb
 	e.tomb.Kill(nil)
 	e.mutex.Unlock()
+	verifPoint("close.killed", e)
 
 	// close each stream under its own mutex so concurrent or subsequent
 	// Stream.Close calls observe s.closed and skip the (now closed) signal
@@ -404,8 +422,11 @@ func (e *Engine) Close() {
 		stream.mutex.Unlock()
 	}
 
+	verifPoint("close.streams_closed", e)
+
 	// await goroutine termination
 	_ = e.tomb.Wait()
+	verifPoint("close.done", e)
 }
 
 func (e *Engine) expire(interval time.Duration, reporter func(error)) {
@@ -417,9 +438,11 @@ func (e *Engine) expire(interval time.Duration, reporter func(error)) {
 		// await next interval
 		select {
 		case <-e.tomb.Dying():
+			verifPoint("expire.exit", e)
 			return
 		case <-ticker.C:
 		}
+		verifPoint("expire.pass_begin", e)
 
 		// get transaction
 		txn, err := e.Begin(nil, true)
@@ -427,6 +450,7 @@ func (e *Engine) expire(interval time.Duration, reporter func(error)) {
 			if reporter != nil {
 				reporter(err)
 			}
+			verifPoint("expire.pass_end", e)
 			continue
 		}
 
@@ -437,6 +461,7 @@ func (e *Engine) expire(interval time.Duration, reporter func(error)) {
 			if reporter != nil {
 				reporter(err)
 			}
+			verifPoint("expire.pass_end", e)
 			continue
 		}
 
@@ -446,7 +471,9 @@ func (e *Engine) expire(interval time.Duration, reporter func(error)) {
 			if reporter != nil {
 				reporter(err)
 			}
+			verifPoint("expire.pass_end", e)
 			continue
 		}
+		verifPoint("expire.pass_end", e)
 	}
 }
